@@ -14,6 +14,9 @@
    (c04_current_table_alive); cooling period > 64 s for every clock history incl. gc() and stamp wrap (c04_cooling,
    c04_snapshot_usable) - since fix 8cef5d9 (retire re-reads the clock in every round of its push loop; regenerated
    target retry_new_head, reverting it breaks the translator) the former finding F4 is impossible: c04_no_stale_stamp.
+   Whole-object operations (move construction / assignment, swap; sequential by contract) are a second, sequential model
+   CVObjModel over several vector objects: c04_moved_vectors_keep_their_constructor, c04_objects_death.  The concurrent
+   model of one vector assumes what that layer proves: the vector carries a real element constructor.
    Residual assumptions (all outside the model, listed in META): allocator never hands out an address that a stalled
    thread still holds (no pointer ABA on _block_table/_head: a head word equal to the one loaded designates the same
    node chain); sequentially consistent interleavings; a thread stalled for more than 64 s between obtaining a table
@@ -22,7 +25,8 @@
    clock read and the CAS within ONE round of the push loop is harmless (proved: the CAS only succeeds against the head
    value loaded BEFORE that clock read, so every node below it was retired before the stamp). *)
 From Coq Require Import ZArith List Bool.
-Require Import Verif.Gen.Gen_cvector Verif.Conc.Machine Verif.CV.CVModel Verif.CV.CVProofs.
+Require Import Verif.Gen.Gen_cvector Verif.Conc.Machine Verif.CV.CVModel Verif.CV.CVProofs Verif.CV.CVObjModel
+  Verif.CV.CVObjProofs.
 Import ListNotations.
 Local Open Scope Z_scope.
 
@@ -104,6 +108,32 @@ Theorem c04_table_frees : forall b t0 progs s k ti, Reach b t0 progs s -> nth_er
   (tfrees ti <= 1)%nat /\ (tfrees ti = 1%nat <-> (tst ti = TFreed \/ tst ti = TDead)).
 Proof. exact cv_table_frees. Qed.
 Print Assumptions c04_table_frees.
+
+(* whole-object operations (CVObjModel: several vector objects; construction with an element constructor, growth, move
+   construction = delegate + swap, move assignment = swap, swap, destruction - sequential, as documented): after ANY
+   sequence of such steps every block of every live vector was built by the constructor that vector carries, which is a
+   real constructor (never the empty std::function, i.e. never create_block's memset branch), and nothing visible has been
+   destroyed.  Relies on the regenerated move_ctor_delegate_arg (a COPY of other._constructor), swap member list and
+   create_block test: stealing the constructor in the move constructor re-opens this proof. *)
+Theorem c04_moved_vectors_keep_their_constructor : forall sb n ops v o b,
+  forallb pos_ctor ops = true -> olive (orun (oinit sb n) ops) v o -> In b (oblocks o) ->
+  nth b (built (orun (oinit sb n) ops)) 0 = octor o /\ 0 < octor o /\ nth b (killed (orun (oinit sb n) ops)) 0%nat = 0%nat.
+Proof. exact cvo_built_by_constructor. Qed.
+Print Assumptions c04_moved_vectors_keep_their_constructor.
+
+(* ... and once every vector object is gone every block ever created, through whichever object it travelled, was
+   constructed by a real constructor and destroyed exactly once *)
+Theorem c04_objects_death : forall sb n ops b,
+  forallb pos_ctor ops = true -> (forall v, slot (orun (oinit sb n) ops) v = None) ->
+  (b < length (built (orun (oinit sb n) ops)))%nat ->
+  0 < nth b (built (orun (oinit sb n) ops)) 0 /\ nth b (killed (orun (oinit sb n) ops)) 0%nat = 1%nat.
+Proof. exact cvo_death. Qed.
+Print Assumptions c04_objects_death.
+
+Theorem c04_move_and_swap_source_facts : (forall c, move_ctor_delegate_arg c = c) /\
+  (swap_meta = 1 /\ swap_constructor = 1 /\ swap_block_table = 1 /\ swap_retire_list = 1 /\ move_assign_swaps = 1) /\
+  (forall c, create_block_constructs c = negb (c =? 0)).
+Proof. exact (conj cvo_move_delegates_a_copy (conj cvo_swap_all_members cvo_create_block_test)). Qed.
 
 (* cooling period: a table is freed more than 64 s after the growth that superseded it, for every schedule and every
    clock history, gc() calls included, 16-bit stamp wrap included *)
@@ -190,6 +220,10 @@ Print Assumptions c04_memory_order_obligations.
 
 (* non-vacuity: a reachable state in which a table was retired, freed 128 s later by gc() (no stale stamp) and a
    too-old snapshot found it freed *)
+Example c04_objects_example : forallb pos_ctor obj_example = true /\
+  (forall v, slot (orun (oinit 0 3) obj_example) v = None) /\ length (built (orun (oinit 0 3) obj_example)) = 5%nat.
+Proof. exact cvo_example. Qed.
+
 Example c04_death_example :
   exists s, Reach 0 1000000 death_progs s /\ all_done s = true /\ (0 < sum (bdtor s))%nat /\ (2 <= length (tl (tables s)))%nat.
 Proof. exact cv_death_example. Qed.
